@@ -1,8 +1,8 @@
 use crate::paged_reader::PagedReader;
 use crate::queue_reader::QueueReader;
 use crate::{
-    CartesianCoordinate, Color, ColorLimits, Error, Point, PointCloud, RecordDataType, RecordName,
-    RecordValue, Result, SphericalCoordinate, Transform, Translation,
+    CartesianCoordinate, Color, ColorLimits, Error, Point, PointCloud, Record, RecordDataType,
+    RecordName, RecordValue, Result, SphericalCoordinate, Transform, Translation,
 };
 use std::collections::VecDeque;
 use std::io::{Read, Seek};
@@ -521,8 +521,26 @@ struct Range {
 }
 
 impl Range {
-    fn from_limits(min: &Option<RecordValue>, max: &Option<RecordValue>) -> Result<Option<Self>> {
-        if let (Some(RecordValue::Double(min)), Some(RecordValue::Double(max))) = (&min, &max) {
+    fn from_limits(
+        min: &Option<RecordValue>,
+        max: &Option<RecordValue>,
+        record: Option<&Record>,
+    ) -> Result<Option<Self>> {
+        if let (
+            Some(RecordValue::ScaledInteger(min)),
+            Some(RecordValue::ScaledInteger(max)),
+            Some(RecordDataType::ScaledInteger { scale, offset, .. }),
+        ) = (&min, &max, record.map(|r| &r.data_type))
+        {
+            // Scaled integer limits are raw values that need the scale and offset of the record.
+            // A negative scale reverses the order of the scaled limits.
+            let a = *min as f64 * *scale + *offset;
+            let b = *max as f64 * *scale + *offset;
+            let (min, max) = if *scale < 0.0 { (b, a) } else { (a, b) };
+            Ok(Some(Self::from_min_max(min, max)?))
+        } else if let (Some(RecordValue::Double(min)), Some(RecordValue::Double(max))) =
+            (&min, &max)
+        {
             Ok(Some(Self::from_min_max(*min, *max)?))
         } else if let (Some(RecordValue::Single(min)), Some(RecordValue::Single(max))) =
             (&min, &max)
@@ -585,8 +603,12 @@ impl Range {
     }
 
     fn intensity_from_pointcloud(pc: &PointCloud) -> Result<Option<Self>> {
+        let record = pc
+            .prototype
+            .iter()
+            .find(|p| p.name == RecordName::Intensity);
         if let Some(limits) = &pc.intensity_limits {
-            let range = Self::from_limits(&limits.intensity_min, &limits.intensity_max)?;
+            let range = Self::from_limits(&limits.intensity_min, &limits.intensity_max, record)?;
             if range.is_some() {
                 return Ok(range);
             }
@@ -610,7 +632,8 @@ impl Range {
             red_min, red_max, ..
         }) = &pc.color_limits
         {
-            let range = Self::from_limits(red_min, red_max)?;
+            let record = pc.prototype.iter().find(|p| p.name == RecordName::ColorRed);
+            let range = Self::from_limits(red_min, red_max, record)?;
             if range.is_some() {
                 return Ok(range);
             }
@@ -632,7 +655,11 @@ impl Range {
             ..
         }) = &pc.color_limits
         {
-            let range = Self::from_limits(green_min, green_max)?;
+            let record = pc
+                .prototype
+                .iter()
+                .find(|p| p.name == RecordName::ColorGreen);
+            let range = Self::from_limits(green_min, green_max, record)?;
             if range.is_some() {
                 return Ok(range);
             }
@@ -656,7 +683,11 @@ impl Range {
             blue_min, blue_max, ..
         }) = &pc.color_limits
         {
-            let range = Self::from_limits(blue_min, blue_max)?;
+            let record = pc
+                .prototype
+                .iter()
+                .find(|p| p.name == RecordName::ColorBlue);
+            let range = Self::from_limits(blue_min, blue_max, record)?;
             if range.is_some() {
                 return Ok(range);
             }
